@@ -25,21 +25,31 @@ run_demo = (f"timeout 120 /venv/bin/python -m pytest -q -p no:cacheprovider --no
 rc, out = sh(run_demo, cwd=W, env=env); meta["demo_with_patch"] = out.strip()
 sh("git checkout -- . && git clean -fdq", cwd=W)
 rc, out = sh(run_demo, cwd=W, env=env); meta["demo_without_patch"] = out.strip()
-sh(f"git -C /repo worktree remove --force {W}")
+ISOLATED = os.environ.get("SEED_ISOLATED") == "1"   # another run is using /repo: check the scratch worktree
+if not ISOLATED:
+    sh(f"git -C /repo worktree remove --force {W}")
 print(json.dumps(meta, indent=1))
-# run the checks against /repo itself
-assert sh("git -C /repo status --porcelain")[1].strip() == "", "/repo not clean"
-rc, out = sh(f"git -C /repo apply {patch}")
+# run the checks against /repo itself (or, isolated, against the patched scratch worktree)
+cenv = {}
+if ISOLATED:
+    sh(f"git apply {patch}", cwd=W)
+    cenv = {"VERIF_REPO": W}
+else:
+    assert sh("git -C /repo status --porcelain")[1].strip() == "", "/repo not clean"
+    rc, out = sh(f"git -C /repo apply {patch}")
 results = {}
 try:
     for c in checks:
-        rc, out = sh(f"timeout 1200 ./check {c}", cwd="/verif", timeout=1300)
+        rc, out = sh(f"timeout 1200 ./check {c}", cwd="/verif", timeout=1300, env=cenv)
         lines = [l for l in out.splitlines() if l.startswith(("VIOLATION", "  clause", "OK ", "MACHINERY"))]
         results[c] = {"exit": rc, "lines": lines[:6]}
         print(f"[{sid}] {c}: exit={rc} " + " | ".join(lines[:3])[:400])
 finally:
-    sh("git -C /repo checkout -- .")
-    assert sh("git -C /repo status --porcelain")[1].strip() == ""
+    if ISOLATED:
+        sh(f"git -C /repo worktree remove --force {W}")
+    else:
+        sh("git -C /repo checkout -- .")
+        assert sh("git -C /repo status --porcelain")[1].strip() == ""
 dst = f"/verif/seeded/{sid}"
 os.makedirs(dst, exist_ok=True)
 shutil.copy(patch, dst + "/patch.diff"); shutil.copy(demo, dst + "/" + os.path.basename(demo))
